@@ -115,9 +115,14 @@ def tagger_base(meta, ti):
 # ------------------------------------------------------------------------------------------------
 def check_all(trace, props=("C07", "C08", "C09", "C11", "C12", "C13", "C17")):
     """Run the oracles over one trace.  Returns {prop: [failures]} and statistics."""
+    fails = {p: [] for p in props}
+    if trace.get("error") and trace.get("meta") is None:
+        for p in props:
+            fails[p].append({"leg": 0, "msg": "run raised %s before the first leg: %s"
+                             % (trace["error"]["exc"], trace["error"]["msg"])})
+        return fails, {"legs": 0, "commits": 0, "kinds": {}}
     meta = trace["meta"]
     st = State(trace)
-    fails = {p: [] for p in props}
     stats = {"legs": 0, "commits": 0, "kinds": {}, "max_moving": 0, "samples": 0, "cell_crossings": 0,
              "liftings": 0, "c08_checked": 0, "c09_compared": 0, "c11_units": 0, "c12_objects": 0}
     if trace.get("error"):
